@@ -171,7 +171,11 @@ def gen_corner(ck: Check):
 
 def gen_all(ck: Check):
     yield from gen_corner(ck)
-    yield from c01.gen_instances(ck)
+    cap = 48 if ck.quick else 64      # C01 decodes ALL signed permutations of its small instances once; here every
+    for stream, W, H, items, xs in c01.gen_instances(ck):   # permutation costs 4-7 decodes, so sample them
+        if len(xs) > cap:
+            xs = ck.rng.sample(xs, cap)
+        yield stream, W, H, items, xs
 
 
 # ----------------------------------------------------------------------------------------------------------------
@@ -211,8 +215,37 @@ def streams(ck: Check) -> None:
         ck.count(f"{role}_enc{ei + 1}")
         return rows[:n], nb
 
+    def flush():
+        """run the Lean driver on the ops collected so far and evaluate B and C for them"""
+        outs = ck.model(ops, drv="drv_c14")
+        for line, (kind, stream, case, (rows, nb), fresh), mout in zip(ops, ctx, outs):
+            d = kv(mout)
+            e = case["encoding"]
+            if kind == "dec":
+                ck.compare(stream, line[:400], f"{d.get('rows', mout)} {d.get('nbins')}", f"{cmat(rows)} {nb}")
+                continue
+            info = dict(case, impl_rows=rows, impl_n_bins=nb, spec=mout[:600])
+            if d.get("valid") != "true" or d.get("sperm") != "true":
+                ck.compare(stream, line[:400], mout[:200], "valid=true sperm=true (generator must produce valid inputs)")
+                continue
+            ok_rule = d.get("rows") == cmat(rows) and d.get("nbins") == str(nb)
+            if fresh is not None and fresh != (rows, nb):
+                # the result depends on what was in memory before the call
+                ck.spec(False, "stateless", f"encoding {e}: decoding after a history of {case['history_len']} other "
+                        f"decodings (dirty destination / scratch arrays) differs from a fresh decode of the same permutation",
+                        dict(info, fresh_rows=fresh[0], fresh_n_bins=fresh[1]))
+            else:
+                ck.spec(True, "stateless", "", None)
+            ck.spec(ok_rule, f"rule_enc{e}",
+                    f"encoding {e} does not produce the packing prescribed by the documented bottom-left rule "
+                    f"(Lean spec IblSpec.{'nextFit' if e == 1 else 'firstFit'})", info)
+        ops.clear()
+        ctx.clear()
+
     for stream, W, H, items, xs in gen_all(ck):
         ck.count(stream)
+        if len(ops) > 60000:
+            flush()
         try:
             inst = Instance("i", W, H, items)
         except (ValueError, TypeError):
@@ -259,29 +292,8 @@ def streams(ck: Check) -> None:
                 ck.count(f"history_{hl}")
                 res = one_decode(stream, W, H, items, inst, encs[ei], ei, x, y, "target", hl, fresh)
                 ck.count(f"bins_{min(res[1], 5)}{'+' if res[1] >= 5 else ''}")
+    flush()
 
-    outs = ck.model(ops, drv="drv_c14")
-    for line, (kind, stream, case, (rows, nb), fresh), mout in zip(ops, ctx, outs):
-        d = kv(mout)
-        e = case["encoding"]
-        if kind == "dec":
-            ck.compare(stream, line[:400], f"{d.get('rows', mout)} {d.get('nbins')}", f"{cmat(rows)} {nb}")
-            continue
-        info = dict(case, impl_rows=rows, impl_n_bins=nb, spec=mout[:600])
-        if d.get("valid") != "true" or d.get("sperm") != "true":
-            ck.compare(stream, line[:400], mout[:200], "valid=true sperm=true (generator must produce valid inputs)")
-            continue
-        ok_rule = d.get("rows") == cmat(rows) and d.get("nbins") == str(nb)
-        if fresh is not None and fresh != (rows, nb):
-            # the result depends on what was in memory before the call
-            ck.spec(False, "stateless", f"encoding {e}: decoding after a history of {case['history_len']} other decodings "
-                    f"(dirty destination / scratch arrays) differs from a fresh decode of the same permutation",
-                    dict(info, fresh_rows=fresh[0], fresh_n_bins=fresh[1]))
-        else:
-            ck.spec(True, "stateless", "", None)
-        ck.spec(ok_rule, f"rule_enc{e}",
-                f"encoding {e} does not produce the packing prescribed by the documented bottom-left rule "
-                f"(Lean spec IblSpec.{'nextFit' if e == 1 else 'firstFit'})", info)
 
 
 def check(ck: Check) -> None:
